@@ -40,6 +40,9 @@ ASSUMPTIONS = [
     'distractor; only R2 is sorted',
     'one chain, one ring and two chains of 1500 (thorough 4000) members -- longer than the interpreter\'s default recursion limit -- '
     'are sorted across both phrases from three set orders',
+    're-link family: the whole set is sorted, the same instances are re-linked into another arrangement, and the RESULT object '
+    'of the first call is sorted again (every ordered pair of arrangements of up to 3 / 4 instances, both phrases; every other '
+    'pair preceded by a call with an unknown phrase, which the library rejects)',
     'argument validation of sort_reflexive (non-QuerySet argument, unknown phrase) is not part of the statement and is not checked',
 ]
 
@@ -498,6 +501,63 @@ def run_world(sub, task):
     return None
 
 
+def relink_check(sub, case):
+    '''Sort the whole set in arrangement succ1, re-link the same instances into succ2 through unrelate / relate, then sort the
+    RESULT object of the first call again (same association, same phrase): it must be judged like any set in arrangement 2.'''
+    import xtuml
+    succ1, succ2, pal, pi, poison = tuple(case['succ']), tuple(case['succ2']), case['palette'], case['phrase'], case['poison']
+    n = len(succ1)
+    try:
+        w = build(succ1, 0, pal)
+        phrase = w.pal[pi]
+        p_pred, p_succ = w.pal
+        if poison:
+            # a call the library rejects (unknown phrase) comes first; it must not change what later calls answer
+            try:
+                xtuml.sort_reflexive(xtuml.QuerySet(w.insts), REL, 'no such phrase')
+            except Exception:
+                pass
+        with core.time_limit(LIMIT_S * 10):
+            r = xtuml.sort_reflexive(xtuml.QuerySet(w.insts), REL, phrase)
+        for x, y in enumerate(succ1):
+            if y is not None:
+                xtuml.unrelate(w.insts[x], w.insts[y], REL, p_succ)
+        for x, y in enumerate(succ2):
+            if y is not None:
+                xtuml.relate(w.insts[x], w.insts[y], REL, p_succ)
+        w.succ = succ2
+        w.chains, w.rings = components(succ2)
+        S = tuple(w.label[i] for i in r)
+        with core.time_limit(LIMIT_S * 10):
+            out = [w.label.get(i, '?') for i in itertools.islice(iter(xtuml.sort_reflexive(r, REL, phrase)), 4 * n + 4)]
+    except core.Timeout:
+        sub.violation('c16:relink:hang', case, 'sorting %r, re-linking to %r and sorting the result again does not return' %
+                      (list(succ1), list(succ2)))
+        return
+    except Exception as e:
+        sub.violation('c16:relink:exception', case, 'sorting %r%s, re-linking to %r and sorting the result again raised %s: %s' %
+                      (list(succ1), ' (after a rejected call with an unknown phrase)' if poison else '', list(succ2),
+                       type(e).__name__, e), 'a result', type(e).__name__)
+        return
+    sub.count('relink_sorts')
+    if sorted(S) != list(range(n)):
+        return          # the first result is judged by the main family
+    bad = judge(w, S, pi, out)
+    if bad:
+        sub.violation('c16:relink:' + bad[0], case,
+                      'arrangement %r sorted across %r gives the set %r; after re-linking the instances to %r, sorting that result '
+                      'object again: %s' % (list(succ1), phrase, list(S), list(succ2), bad[1]), bad[2], out)
+
+
+def relink_task(sub, task):
+    n, pairs = task
+    pal = sub.seed % len(PALETTES)
+    for k, (s1, s2) in enumerate(pairs):
+        for pi in (0, 1):
+            relink_check(sub, dict(kind='relink', n=n, succ=list(s1), succ2=list(s2), palette=pal, phrase=pi, poison=(k + pi) % 2))
+    return None
+
+
 LONG_N = {'quick': 1500, 'thorough': 4000}
 
 
@@ -592,6 +652,15 @@ def run(ctx):
     k = ctx.seed % 7
     big = big[k:] + big[:k]
     ctx.pmap(run_world, small + big, chunk=max(8, len(tasks) // 512))
+    # re-linking between two sorts of the same result object: every ordered pair of arrangements of n <= 3 (thorough: 4) instances
+    rtasks = []
+    for n in range(1, (3 if ctx.quick else 4) + 1):
+        arr = [succ for succ in partial_injections(n)]
+        pairs = [(a, b) for a in arr for b in arr if a != b]
+        for i in range(0, len(pairs), 200):
+            rtasks.append((n, pairs[i:i + 200]))
+    ctx.pmap(relink_task, rtasks, chunk=1)
+    ctx.require(ctx.n('relink_sorts') >= 1000, 'too few re-link sorts (%d)' % ctx.n('relink_sorts'))
     ctx.pmap(long_task, long_worlds(ctx.tier), chunk=1)
     ctx.require(ctx.n('long_sort_calls') >= 18, 'long chains / rings were not sorted (%d calls)' % ctx.n('long_sort_calls'))
     top = 5 if ctx.quick else 7
@@ -618,6 +687,8 @@ def run(ctx):
 
 def replay(ctx, case):
     _HANGS.value = 0
+    if case.get('kind') == 'relink':
+        return relink_check(ctx, case)
     succ = tuple(case['succ'])
     try:
         w = build(succ, case['mode'], case['palette'])
